@@ -441,12 +441,36 @@ func tryNormalForms(id, tier, repo string, rep *Report, known *KnownFile) (*Repo
 	}
 	var variants []variant
 	// a role nobody plays: the statement that plays it inside another function is taken out into a function of its own
+	missingRole := map[string]bool{}
+	if a := rep.c.anchors(); a != nil {
+		for _, m := range a.missing {
+			missingRole[m] = true
+		}
+		if a.inline == nil {
+			missingRole["inline fragment resolver"] = true
+		}
+	}
 	for _, t := range outlineTargets {
 		role := t.role
-		if strings.Contains(openText, "anchor: "+role) {
+		if strings.Contains(openText, "anchor: "+role) || missingRole[role] {
 			variants = append(variants, variant{name: "the statement in the role of the " + role + " taken out into a function of its own", form: func() (*nfResult, error) { return outlineForm(repo, role) }})
 		}
 	}
+	// what "extract method" leaves behind in a function the rules are anchored in: helpers all of whose callers are
+	// anchored functions that the open obligations name
+	v0 := func(name string) bool {
+		b := bareOf(name)
+		if anch[b] || len(callers[b]) == 0 {
+			return false
+		}
+		for cl := range callers[b] {
+			if !(anch[cl] && mentioned[cl]) {
+				return false
+			}
+		}
+		return true
+	}
+	variants = append(variants, variant{name: "helpers called only by anchored functions that the open obligations name", pick: v0})
 	variants = append(variants, variant{name: "helpers the open obligations name", pick: v1},
 		variant{name: "helpers with at most three calling functions among those called by the functions the open obligations name", pick: v2narrow})
 	// one helper at a time, among those the examined functions call
@@ -538,7 +562,16 @@ func tryNormalForms(id, tier, repo string, rep *Report, known *KnownFile) (*Repo
 				namesInlined := false
 				// only where the construct is described through the helper (a value "coerceArgIn()#0", an error
 				// source "Root.resolveElem#1") or the rule judges code by where it sits
-				if !(contextual(o.Rule) || strings.HasPrefix(o.Rule, "C04.ARMS") || strings.HasPrefix(o.Rule, "C10.REQVAR") || strings.HasPrefix(o.Rule, "C01.OP")) {
+				// a construct that is a call or a value of an inlined helper ("call #1 of (*Object).setGoType", a value
+				// "coerceArgIn()#0", an error source "Root.resolveElem#1") does not exist on this text, whatever the rule;
+				// the function at the head of the construct is never inlined (see above)
+				for _, in := range nf.inlined {
+					name := in[:strings.Index(in, " (")]
+					if strings.HasPrefix(name, "(") && strings.Contains(o.Key, name) {
+						namesInlined = true
+					}
+				}
+				if !namesInlined && !(contextual(o.Rule) || strings.HasPrefix(o.Rule, "C04.ARMS") || strings.HasPrefix(o.Rule, "C10.REQVAR") || strings.HasPrefix(o.Rule, "C01.OP")) {
 					lost = o.Rule + " | " + o.Key
 					continue
 				}
